@@ -61,7 +61,10 @@ void wf_builtin(hwloc_topology_t t, const char *ctx);
 #define CANON_LIDX      (1u << 9)   /* depth / logical_index */
 #define CANON_TOPOINFOS (1u << 10)
 #define CANON_SYMM      (1u << 11)  /* symmetric_subtree */
-#define CANON_ALL       (0xffffu)
+#define CANON_BARE      (1u << 12)  /* with CANON_TREE: only type, os_index, sets and child lists (v2-format comparisons) */
+#define CANON_DIST_SORTED (1u << 13) /* print the distances structures sorted by their text (list order is not part of the claim) */
+#define CANON_NO_MEM_CCS (1u << 14)  /* do not print the complete_cpuset of memory objects (open finding: stale after level merges) */
+#define CANON_ALL       (0x0fffu)
 #define CANON_EQUIV     (CANON_ALL & ~(CANON_USERDATA | CANON_SUPPORT))
 void canon_dump(hwloc_topology_t t, unsigned what, struct hv_str *out);
 /* first differing line of two dumps (static buffer), or NULL when equal */
